@@ -90,3 +90,24 @@ package isaac
 //@ func (BallotPool).Ballot
 //@   pure
 //@   ensures r2 == nil && r1 ==> r0 != nil
+
+// ---- C18: suffrage history sync ------------------------------------------------------
+//
+// prove places a fetched proof into its slot of the current batch and checks
+// its links to the neighbours that already arrived: for any remote answer it
+// either returns an error or stores the proof at the index given by its
+// suffrage height (never outside the batch).
+//@ func (*SuffrageStateBuilder).prove
+//@   prop C18
+//@   requires proof != nil
+//@   requires forall(k, 0 <= k && k < len(proofs) && proofs[k] != nil ==> proofs[k].State() != nil)
+//@   requires previous != nil ==> snd(base.LoadSuffrageNodesStateValue(previous)) == nil
+// heights of valid proofs and states are not negative (IsValid)
+//@   requires proof.SuffrageHeight() >= 0 && (previous != nil ==> fst(base.LoadSuffrageNodesStateValue(previous)).Height() >= 0)
+//@   modifies proofs[*]
+//@   ensures [slot] r0 == nil ==> 0 <= proof.SuffrageHeight() - ite(previous == nil, -1, fst(base.LoadSuffrageNodesStateValue(previous)).Height()) - 1 && proof.SuffrageHeight() - ite(previous == nil, -1, fst(base.LoadSuffrageNodesStateValue(previous)).Height()) - 1 < len(proofs)
+//@   ensures [stored] r0 == nil ==> proofs[proof.SuffrageHeight() - ite(previous == nil, -1, fst(base.LoadSuffrageNodesStateValue(previous)).Height()) - 1] == proof
+//@   ensures [first-link] r0 == nil && proof.SuffrageHeight() - ite(previous == nil, -1, fst(base.LoadSuffrageNodesStateValue(previous)).Height()) - 1 == 0 ==> proof.Prove(previous) == nil
+//@   ensures [local-prev-link] r0 == nil && index > 0 && old(proofs[index-1]) != nil ==> proof.Prove(old(proofs[index-1]).State()) == nil
+//@   ensures [local-next-link] r0 == nil && index + 1 < len(proofs) && old(proofs[index+1]) != nil ==> old(proofs[index+1]).Prove(proof.State()) == nil
+//@   ensures [local-others] forall(k, 0 <= k && k < len(proofs) && k != index ==> proofs[k] == old(proofs[k]))
